@@ -72,6 +72,10 @@ def build():
     fns.append(mk(len(fns), "g", "fifo", limit=3, name="chainA", deps=("d1",), tags=("t2",)))
     fns.append(mk(len(fns), "a", "lru", limit=3, name="chainB", deps=("chainA",), events=("chainA",)))
     fns.append(mk(len(fns), "g", "lru", limit=3, name="chainC", deps=("chainB",), tags=("chainA", "chainB")))
+    # a cache that names itself among its labels (e.g. a recursive memoised function)
+    fns.append(mk(len(fns), "g", "lru", limit=3, name="chainS", deps=("chainS", "d2"), tags=("chainS",)))
+    n = len(fns)
+    fns.append(mk(n, "a", "fifo", limit=3, deps=("f%d" % n,), events=("f%d" % n,)))
     # predicates and Result
     for fl in ["g", "t", "a"]:
         fns.append(mk(len(fns), fl, "lru", limit=3, ret=2))
@@ -87,7 +91,7 @@ def build():
         for sig in [1, 2, 3, 4]:
             fns.append(mk(len(fns), fl, "lru", limit=2, sig=sig))
     # seeded sample of the product
-    while len(fns) < 135:
+    while len(fns) < 137:
         fl = r.pick(["g", "g", "t", "a", "a"])
         pol = r.pick(POLICIES)
         limit = r.pick([None, 1, 2, 3, 4])
